@@ -146,12 +146,35 @@ def large_models(biggest=300):
             lo = draw(st.one_of(st.integers(0, k), st.sampled_from([0, 1, k - 1, k, k])))
             hi = draw(st.one_of(st.integers(max(lo, 1), k), st.just(k), st.just(-1)))
             kids = [leaf() for _ in range(k)]
-            if draw(st.booleans()):      # some children get a small subtree
-                j = draw(st.integers(0, k - 1))
-                kids[j]["rels"].append(build.rel(0, 1, [leaf(), leaf()]))
-                if draw(st.booleans()):
+            # some children get a small subtree, several of them with equal and with different shapes (the counts
+            # of the children then repeat non-adjacently: c, d, c)
+            for j in draw(st.lists(st.integers(0, k - 1), max_size=6, unique=True)):
+                shape = draw(st.integers(0, 3))
+                if shape == 0:
+                    kids[j]["rels"].append(build.rel(0, 1, [leaf(), leaf()]))
+                elif shape == 1:
+                    kids[j]["rels"].append(build.rel(0, 1, [leaf()]))
+                elif shape == 2:
                     kids[j]["rels"].append(build.rel(1, 1, [leaf()]))
+                    kids[j]["rels"].append(build.rel(0, 1, [leaf()]))
+                    kids[j]["rels"].append(build.rel(0, 1, [leaf()]))
+                else:
+                    kids[j]["rels"].append(build.rel(1, 2, [leaf(), leaf()]))
             rels.append(build.rel(lo, hi, kids))
+        if draw(st.integers(0, 2)) == 0:
+            # many single relations under one parent (33-70), some children with a mandatory / optional child of their own
+            for _ in range(draw(st.integers(33, 70))):
+                c = leaf()
+                t = draw(st.integers(0, 5))
+                if t == 0:
+                    c["rels"].append(build.rel(1, 1, [leaf()]))
+                elif t == 1:
+                    c["rels"].append(build.rel(0, 1, [leaf()]))
+                    c["rels"].append(build.rel(1, 1, [leaf()]))
+                rels.append(build.rel(draw(st.integers(0, 1)), 1, [c]))
+            if draw(st.booleans()):
+                order = draw(st.permutations(list(range(len(rels)))))
+                rels = [rels[i] for i in order]
         root = build.feat("Root", rels)
         ctcs = []
         if draw(st.integers(0, 2)) == 0:
@@ -173,6 +196,8 @@ def large_classes(case):
             out.add("forced-by-group")
     if case["ctcs"]:
         out.add("with-tautology")
+    if len(case["root"]["rels"]) >= 33:
+        out.add("relations>=33")
     return out
 
 
